@@ -49,7 +49,14 @@ def _thread_log():
 
 
 # --------------------------------------------------------------------------- host side
+def _flat_rows(a):
+    a = np.array(a, copy=True)
+    return a.reshape(a.shape[0], -1) if a.ndim > 2 else a
+
+
 def _rec_loss_data(x, cond, kd, c, value, rid=0):
+    x = _flat_rows(x)
+    cond = None if cond is None else _flat_rows(cond)
     _log_of(rid).append(
         (
             "LOSS",
@@ -316,6 +323,17 @@ def make_dataset(world):
             [[1000 + i + 100 * j for j in range(ccols)] for i in range(n)],
             dtype=np.float32,
         )
+    # array FORMS (the statement quantifies over datasets, not over one layout): rows with more than one trailing
+    # dimension, and data that is not float32 (float64 / integer numpy arrays); tags stay exactly representable
+    if world.get("x_tail") and ncols:
+        x = x.reshape((n,) + tuple(world["x_tail"]))
+    if world.get("cond_tail") and ccols:
+        cond = cond.reshape((n,) + tuple(world["cond_tail"]))
+    dt = world.get("data_dtype")
+    if dt:
+        x = x.astype(dt)
+        if cond is not None and dt != "int32":
+            cond = cond.astype(dt)
     return x, cond
 
 
